@@ -151,8 +151,11 @@ def stage_large(ctx):
         for b in range(a + 9, a + 13):
             if b <= 29 and (1 << 20) - 1 <= refids.nchildren(a, b) <= limit:
                 jobs.append((a, b))
+    # one expansion beyond the limit in either tier: 4^11 children (quick), 4^12 (thorough)
+    extra = (2 + ctx.seed % 5, 13 + ctx.seed % 5) if ctx.tier == "quick" else (5, 17)
+    jobs.append(extra)
     for a, b in jobs[ctx.shard::ctx.nshards]:
-        for c in _sample_cells(a)[:1 if ctx.tier == "quick" else 2]:
+        for c in _sample_cells(a)[:1 if (ctx.tier == "quick" or (a, b) == extra) else 2]:
             case = {"t": "large", "a": a, "b": b, "cell": hex(c)}
             want = ci.get_num_children(a, b)
             if want != refids.nchildren(a, b):
